@@ -118,6 +118,10 @@ func (p c18) Run(c *fw.Case) {
 		failedCalls(c) // call history: failed calls before the case must leave nothing behind
 	}
 	r := c.R
+	if c.Idx%12 == 7 {
+		p.unreferencedResources(c)
+		return
+	}
 	draft := gen.D2020
 	if c.Idx%3 == 2 {
 		draft = gen.D7
@@ -319,5 +323,97 @@ func sortStringsInPlace(a []string) {
 		for j := i; j > 0 && a[j] < a[j-1]; j-- {
 			a[j], a[j-1] = a[j-1], a[j]
 		}
+	}
+}
+
+// unreferencedResources: $defs / definitions are non-asserting, and an entry nobody refers to stays so even when it carries
+// an $id or an anchor of its own - in particular one that LOOKS LIKE the identifier of a referenced resource without being
+// the same URI (trailing slash, empty path segment, query, case of the path; RFC 3986 6.2: different URIs). The base schema
+// refers to an embedded resource by URI; the decorated variants add such unreferenced entries; verdicts must not move.
+func (c18) unreferencedResources(c *fw.Case) {
+	r := c.R
+	leafs := []map[string]any{{"type": "integer"}, {"type": "string"}, {"minimum": json.Number("1")}, {"const": "x"}, {"type": []any{"string", "null"}}}
+	leaf := gen.Clone(gen.Pick(r, leafs)).(map[string]any)
+	id := gen.Pick(r, []string{"types/name", "http://h/types/name.json", "t.json", "sub/dir/t"})
+	leaf["$id"] = id
+	defsKey, base := "$defs", map[string]any{"$id": "http://h/root.json"}
+	if c.Idx%24 == 7 {
+		defsKey = "definitions"
+		base["$schema"] = gen.Schema7URI
+	}
+	base[defsKey] = map[string]any{"n": leaf}
+	base["properties"] = map[string]any{"a": map[string]any{"$ref": id}}
+	if r.IntN(2) == 0 {
+		base["items"] = map[string]any{"$ref": id}
+	}
+	baseText := gen.Text(base)
+	rs0, err, ok := compileDoc(c, baseText, nil)
+	if !ok || err != nil {
+		return
+	}
+	var insts []any
+	for _, v := range []any{json.Number("1"), json.Number("0"), "x", "y", nil, json.Number("2.5")} {
+		insts = append(insts, map[string]any{"a": v}, []any{v}, v)
+	}
+	for k := 0; k < 4; k++ {
+		dec := gen.Clone(base).(map[string]any)
+		defs := dec[defsKey].(map[string]any)
+		variant := id
+		switch r.IntN(5) {
+		case 0:
+			variant = id + "/"
+		case 1:
+			if i := strings.LastIndex(id, "/"); i > 7 {
+				variant = id[:i] + "/" + id[i:]
+			} else {
+				variant = id + "//x"
+			}
+		case 2:
+			variant = id + "?v=1"
+		case 3:
+			if i := strings.LastIndex(id, "/"); i >= 0 {
+				variant = id[:i] + strings.ToUpper(id[i:])
+			} else {
+				variant = strings.ToUpper(id)
+			}
+		default:
+			variant = id + "/deeper"
+		}
+		key := gen.Pick(r, []string{"zz", "a0", "n2", "~"}) + fmt.Sprint(k)
+		// the unreferenced entry rejects everything (or accepts everything): if it were ever used, verdicts would move
+		defs[key] = map[string]any{"$id": variant, gen.Pick(r, []string{"not", "allOf"}): gen.Pick(r, []any{map[string]any{}, []any{false}})}
+		if _, bad := defs[key].(map[string]any)["not"].([]any); bad {
+			defs[key].(map[string]any)["not"] = map[string]any{}
+		}
+		if _, bad := defs[key].(map[string]any)["allOf"].(map[string]any); bad {
+			defs[key].(map[string]any)["allOf"] = []any{false}
+		}
+		dtext := gen.TextShuffled(r, dec, false)
+		rs1, err, ok := compileDoc(c, dtext, nil)
+		if !ok {
+			return
+		}
+		if err != nil {
+			c.Violation("a schema with an additional unreferenced "+defsKey+" entry is refused: "+err.Error(), map[string]any{"schema": json.RawMessage(baseText), "decorated": json.RawMessage(dtext)})
+			return
+		}
+		for _, inst := range insts {
+			it := gen.Text(inst)
+			v0, ok := validate(c, rs0, baseText, gen.Canonical(it), it)
+			if !ok {
+				return
+			}
+			v1, ok := validate(c, rs1, dtext, gen.Canonical(it), it)
+			if !ok {
+				return
+			}
+			c.Eval(1)
+			if v0 != v1 {
+				c.Violation(fmt.Sprintf("an unreferenced %s entry changed the verdict (without it valid=%v, with it valid=%v)", defsKey, v0, v1),
+					map[string]any{"schema": json.RawMessage(baseText), "decorated": json.RawMessage(dtext), "instance": json.RawMessage(it)})
+				return
+			}
+		}
+		c.Nontrivial(fmt.Sprintf("unreferenced-resource|%s|%s", defsKey, variant[len(id):]))
 	}
 }
